@@ -184,6 +184,10 @@ def _gen_scalar(rng, dt: str, extreme: bool):
         s = ''.join(alphabet[int(i)] for i in rng.integers(0, len(alphabet), size=k))
         return 's' + s  # never empty
     v = _gen_array(rng, dt, 1, extreme)[0]
+    if dt == 'float32' and not extreme and rng.random() < 0.5:
+        # a Python float that is not representable in 32 bits: the field's declared type
+        # decides what "was added" (the container casts on assignment)
+        return float(rng.random() * 10.0 ** rng.integers(-3, 4)) + 0.1
     return v.item()
 
 
